@@ -29,6 +29,10 @@ CORPUS = VERIF / "corpus"
 GUARD = "PASQAL_IO_EMULATORS_VERIF"
 
 ALLOWED_AXIOMS = {"propext", "Classical.choice", "Quot.sound"}
+RESERVED_COVERAGE_KEYS = {"obligations", "discharged", "checker_cmd", "trusted_base", "theorems", "undischarged", "evaluations",
+                          "distinct_nontrivial", "rule", "samples", "traces_validated_against_impl", "broken",
+                          "known_findings_reproduced"}
+
 FORBIDDEN = re.compile(
     r"\bsorry\b|\badmit\b|^\s*axiom\s|native_decide|bv_decide|implemented_by|\bunsafe\s|maxHeartbeats\s+0\b"
 )
@@ -309,7 +313,8 @@ class Report:
                 "traces_validated_against_impl": self.traces,
                 "broken": self.broken,
                 "known_findings_reproduced": sorted(seen_known),
-                **self.extra,
+                # a check's own histogram must never shadow a schema field (C32 used hist("samples", …))
+                **{(k if k not in RESERVED_COVERAGE_KEYS else "hist_" + k): v for k, v in self.extra.items()},
             },
             "assumptions": self.assumptions,
             "wall_s": round(time.time() - self.t0, 2),
